@@ -145,8 +145,12 @@ func c02(tier string) int {
 		// configuration loaded in the same process): nothing remembered from
 		// the other configurations may leak into this one.
 		"log A re-keyed": {{Origin: la.Origin, Key: k1b}},
+		// Two IDs configured with ONE origin line and different keys
+		// (witness.Opts.KnownLogs allows it): the key is configured per ID,
+		// not per origin.
+		"2 IDs, one origin, different keys": {{Origin: la.Origin, Key: u.K1, CustomID: "twin-a"}, {Origin: la.Origin, Key: u.K2, CustomID: "twin-b"}},
 	}
-	confNames := []string{"1 log", "2 logs distinct keys", "3 logs, two sharing one key", "2 logs, same key name, different keys", "log A re-keyed"}
+	confNames := []string{"1 log", "2 logs distinct keys", "3 logs, two sharing one key", "2 logs, same key name, different keys", "log A re-keyed", "2 IDs, one origin, different keys"}
 	subst := []byte{0x00, '\n', ' ', 0x7f, 0x80, 0xff, '+', 0xe2}
 	stores := []string{"mem"}
 	if tier == "thorough" {
@@ -414,7 +418,7 @@ func c02(tier string) int {
 	}
 	run.Set("evaluations", evals)
 	run.Set("exhaustive", true)
-	run.Set("rule", "for 5 configurations built through the repository's own AsLogMap in one process (1 log; 2 logs distinct keys; 3 logs of which two share one key under different origins; 2 logs whose keys have the same name but different key material; log A under a new key) x {empty witness, every log holding a smaller checkpoint (growth), every log holding a checkpoint of the submitted size 4 and of size 0 (same-size re-submission: no consistency proof involved; seeds plain and with extension lines, without the cross-log product)} x 6 seed checkpoints (plain, extension lines, extra signature by another configured log, already cosigned, size with a leading zero, root with non-zero base64 padding bits): the complete byte-level 1-edit neighbourhood (every prefix, every single-bit flip, 8 boundary substitutions and deletion at every byte), 25 line-level / signature-block edits, and every checkpoint of every log (4 sizes x 2 shapes, incl. a log configured only elsewhere) submitted under every other configured ID and under unknown IDs (incl. spellings near a configured ID: other case, surrounding space, one character less or more), and every configured origin signed only by each key that is not its own (impostors) under its own ID. Oracle one-directional: accepted or state changed => stored text is in the set of texts the harness signed with the key configured for that ID and starts with that ID's origin; and for inputs the harness decides (crypto/ed25519 directly) carry no valid signature of that key / unsigned text / wrong origin: refused, state unchanged. distinct_nontrivial = distinct (configuration, state, mutated input)")
+	run.Set("rule", "for 6 configurations - five built through the repository's own AsLogMap in one process, one with hand-picked IDs (two IDs, one origin line, different keys) - (1 log; 2 logs distinct keys; 3 logs of which two share one key under different origins; 2 logs whose keys have the same name but different key material; log A under a new key) x {empty witness, every log holding a smaller checkpoint (growth), every log holding a checkpoint of the submitted size 4 and of size 0 (same-size re-submission: no consistency proof involved; seeds plain and with extension lines, without the cross-log product)} x 6 seed checkpoints (plain, extension lines, extra signature by another configured log, already cosigned, size with a leading zero, root with non-zero base64 padding bits): the complete byte-level 1-edit neighbourhood (every prefix, every single-bit flip, 8 boundary substitutions and deletion at every byte), 25 line-level / signature-block edits, and every checkpoint of every log (4 sizes x 2 shapes, incl. a log configured only elsewhere) submitted under every other configured ID and under unknown IDs (incl. spellings near a configured ID: other case, surrounding space, one character less or more), and every configured origin signed only by each key that is not its own (impostors) under its own ID. Oracle one-directional: accepted or state changed => stored text is in the set of texts the harness signed with the key configured for that ID and starts with that ID's origin; and for inputs the harness decides (crypto/ed25519 directly) carry no valid signature of that key / unsigned text / wrong origin: refused, state unchanged. distinct_nontrivial = distinct (configuration, state, mutated input)")
 	run.Assumption("Ed25519 unforgeability: the set of texts the harness signed is the ground truth for authenticity")
 	return run.Finish()
 }
